@@ -367,9 +367,20 @@ def replay(spec):
 def check_order_transparency(acc, inner, tier):
     from skactiveml.pool.multiannotator import SingleAnnotatorWrapper
 
-    X = X3
-    n, m = 3, 2
-    for pat in itertools.product((0, 1), repeat=n * m):
+    m = 2
+    configs = [(X3, 3, list(itertools.product((0, 1), repeat=3 * m)))]
+    if not inner.arbitrary_idx:
+        # batch-aware strategies (CoreSet): additionally four samples at growing distances, whole rows labeled / missing; their utility
+        # rows grow from step to step, which the wrapper's rank transformation has to survive
+        configs.append((np.array([[0.0], [1.0], [3.0], [10.0]]), 4, [tuple(v for v in rows for _ in range(m)) for rows in itertools.product((0, 1), repeat=4)]))
+    for X, n, pats in configs:
+        _order_transparency_on(acc, inner, tier, X, n, m, pats)
+
+
+def _order_transparency_on(acc, inner, tier, X, n, m, pats):
+    from skactiveml.pool.multiannotator import SingleAnnotatorWrapper
+
+    for pat in pats:
         # both annotators agree on every sample, so the label aggregation has no ties
         y = np.array([[NAN if pat[i * m + a] else float(i % 2) for a in range(m)] for i in range(n)])
         unl_rows = [i for i in range(n) if np.isnan(y[i]).any()]
